@@ -28,10 +28,10 @@ def run(ctx):
     exe = pc.harness()
     ctx.phase('build')
     r = ctx.rng
-    n = 150 if ctx.quick else 2500
+    n = 120 if ctx.quick else 2500
     cases = [pc.gen_case(r, exceptions=False, small=(i % 10 != 0) or ctx.quick) for i in range(n)]
     kept, terms = pc.run_lockstep(ctx, exe, cases)
-    nn = 16 if ctx.quick else 150
+    nn = 12 if ctx.quick else 150
     ncases = [pc.gen_native(r, exceptions=False) for _ in range(nn)]
     nkept, nterms = pc.run_native(ctx, exe, ncases, 2)
     ctx.cov['evaluations'] += len(cases) + len(nkept)
@@ -40,7 +40,12 @@ def run(ctx):
     ctx.cov['rule'] = ('random non-throwing pipelines (1-4 later stages, limits 1/2/3/unlimited/0,4,7 or plain functors, filters dropping items by tag, 0-6 items (lockstep) / 0-30 '
                        '(native), 1-3 workers, inline thresholds) x random schedules under vsched, one fork per case; non-trivial = more than 20 steps; distinct = distinct (trace, log) '
                        'strings; native = real pools of 0-4 threads, 2 repetitions')
-    verdicts = ls_common.judge_parallel(ctx, pc.IMPORTS, 'judge_c27', terms + nterms, shard_size=60)
+    verdicts = ls_common.judge_parallel(ctx, pc.IMPORTS, 'judge_c27', terms, shard_size=60)
+    nverd = ls_common.judge_parallel(ctx, pc.IMPORTS, 'judge_c27n', nterms, shard_size=60)
+    if verdicts is not None and nverd is not None:
+        verdicts = verdicts + nverd
+    else:
+        verdicts = None
     if verdicts is None:
         ctx.broken.append('correspondence L(C27): the model no longer evaluates')
         return
@@ -48,16 +53,17 @@ def run(ctx):
     allk = kept + nkept
     for i, (v, (c, p, o)) in enumerate(zip(verdicts, allk)):
         native = i >= len(kept)
-        if native and v == 1:
-            v = 0
         hist[v] = hist.get(v, 0) + 1
         line = pc.native_line(c, 1) if native else pc.line_of(c)
         if v == 2:
             ctx.violation('an item skipped / repeated a stage, got a wrong input, or pipeline() returned early: %s -> %s' % (line[:200], o[:400]),
                           {'case': line, 'output': o, 'cmd': 'echo "<case>" | build/harness/h_pipeline-*'})
+        elif v == 3:
+            ctx.violation('pipeline() still running after %d steps on a schedule on which the model has returned (stall): %s -> %s' % (c['budget'], line[:200], o[-300:]),
+                          {'case': line, 'output': o, 'cmd': 'echo "<case>" | build/harness/h_pipeline-*'})
         elif v == 1:
             ctx.broken.append('correspondence L(C27): real trace differs from the model on ' + line[:200] + ' -> ' + o[:200])
-    ctx.cov['verdict_histogram'] = {'agree': hist.get(0, 0), 'differ_property_holds': hist.get(1, 0), 'property_fails': hist.get(2, 0)}
+    ctx.cov['verdict_histogram'] = {'agree': hist.get(0, 0), 'differ_property_holds': hist.get(1, 0), 'property_fails': hist.get(2, 0), 'stalls_where_model_returns': hist.get(3, 0)}
     ctx.cov['traces_validated_against_impl'] += hist.get(0, 0)
     ctx.cov['status_histogram'] = {k: sum(1 for _, p, _ in kept if p['status'] == v) for k, v in (('done', 0), ('deadlock', 1), ('budget', 2))}
     ctx.cov['site_histogram'] = pc.site_hist(kept)
